@@ -309,10 +309,10 @@ func c12Keepalive(w *World, r *Report, rule string) {
 // goroutine inventory: anchors whose termination other rules establish; anything else must be a loop around a
 // fallible blocking call that leaves on error, or have no loop at all.
 var goAnchors = map[string]string{
-	"xmpp.keepalive":       "exits when recv closes the quit channel or after a failed ping (R3)",
-	"xmpp.Client.recv":     "exits on read error or stream close (R1)",
-	"xmpp.Component.recv":  "component receive loop: exits on read error or stream close",
-	"xmpp.Router.route":    "one per packet; terminates unless a handler blocks (application) — delivery to a pending IQ channel is judged by C07.R2",
+	"xmpp.keepalive":      "exits when recv closes the quit channel or after a failed ping (R3)",
+	"xmpp.Client.recv":    "exits on read error or stream close (R1)",
+	"xmpp.Component.recv": "component receive loop: exits on read error or stream close",
+	"xmpp.Router.route":   "one per packet; terminates unless a handler blocks (application) — delivery to a pending IQ channel is judged by C07.R2",
 }
 
 // leavesOnError: every cycle of fn (bounded range loops aside) passes through a call with an error result whose
